@@ -303,4 +303,93 @@ class C06g(Obligation):
                       'the insertion point is the outermost wrapper of the method (decorators stay with the method)')
 
 
-OBLIGATIONS = [C06a, C06b, C06d, C06f, C06g]
+class C06h(Obligation):
+    id = 'C06.h'
+    title = 'extract_function: a variable becomes a parameter if ANY of its reads in the selection needs an outside value (not only the first one)'
+    pattern = 'P3 (stream of K name occurrences with symbolic spelling, role and per-occurrence lookup answer)'
+    assumptions = (
+        'the selection mentions K<=4 name tokens, each spelled x or y (symbolic), defining or reading (symbolic); for a read '
+        'the lookup finds nothing / a definition outside the selection / only definitions inside it (symbolic per '
+        'occurrence: the answer depends on the position of the read); _find_non_global_names and _is_name_input are stubs',
+    )
+
+    def configs(self, tier):
+        return [dict(K=k) for k in ((2, 3) if tier == 'quick' else (1, 2, 3, 4))]
+
+    def scenario(self, ctx, cfg):
+        K = cfg['K']
+        occ = []
+        for i in range(K):
+            spelling = ctx.oneof('occurrence%d_name' % i, ('x', 'y'))
+            is_def = ctx.flag('occurrence%d_defines' % i)
+            answer = ctx.choice('occurrence%d_lookup' % i, 3)     # 0 nothing found, 1 outside definition, 2 only inside
+            occ.append((spelling, is_def, answer))
+        names = [Obj(value=sp, is_definition=(lambda d=d: d), start_pos=(1, i), tag='occ%d' % i, answer=a)
+                 for i, (sp, d, a) in enumerate(occ)]
+        ctx.patch(X, '_find_non_global_names', lambda nodes: iter(names))
+        ctx.patch(X, '_is_name_input', lambda module_context, defs, first, last: defs[0] == 'outside')
+        context = Obj(goto=lambda name, pos: [] if name.answer == 0 else ['outside' if name.answer == 1 else 'inside'])
+        nodes = [Obj(start_pos=(1, 0), end_pos=(1, 9))]
+        ctx.force(X._find_inputs_and_outputs)
+        out = ctx.call(X._find_inputs_and_outputs, None, context, nodes)
+        ctx.check(out.exc is None, 'never raises')
+        if out.exc is not None:
+            return
+        inputs, outputs = out.value
+        for v in ('x', 'y'):
+            needed = any(sp == v and not d and a in (0, 1) for sp, d, a in occ)
+            ctx.check((v in inputs) == needed, 'a name is an input iff some read of it needs a value from outside the selection')
+            ctx.check(inputs.count(v) <= 1, 'and is listed once')
+            ctx.check((v in outputs) == any(sp == v and d for sp, d, a in occ), 'a name is an output candidate iff the selection binds it')
+
+
+import ast as _ast  # noqa: E402
+
+import jedi as _jedi  # noqa: E402
+
+INLINE_CORPUS = [
+    'a = 3\nprint(a)\n',
+    'a = b = 3\nprint(a)\n',
+    'a = d[0] = 3\nprint(a)\n',
+    'd[0] = a = 3\nprint(a)\n',
+    'a = o.attr = 3\nprint(a)\n',
+    'a, b = 3, 4\nprint(a)\n',
+    'a: int = 3\nprint(a)\n',
+    'a: int\nprint(a)\n',
+    'a += 3\nprint(a)\n',
+    '(a) = 3\nprint(a)\n',
+    'a = s[1:2] = [3]\nprint(a)\n',
+    'for a in x: pass\nprint(a)\n',
+]
+
+
+class C06i(Obligation):
+    id = 'C06.i'
+    title = 'inline accepts a definition only if deleting the statement loses nothing: ONE target, a plain name (no second name, subscript or attribute target)'
+    pattern = 'P4 (real parso statements chosen by a symbolic index; reference from CPython ast)'
+    interpret_modules = ('jedi', 'obligations')
+    assumptions = (
+        'a corpus of 12 two-line programs (definition statement, then a use); the names handed to inline are the real '
+        'tokens; reference: ast.Assign with exactly one ast.Name target, or ast.AnnAssign with a value',
+    )
+
+    def scenario(self, ctx, cfg):
+        i = ctx.choice('program', len(INLINE_CORPUS))
+        ctx.int('unused')
+        src = INLINE_CORPUS[i]
+        module = _jedi.Script(src)._module_node
+        leaves = [l for l in module.get_used_names()['a']]
+        names = [NameStub(l) for l in leaves]
+        st = _ast.parse(src).body[0]
+        if isinstance(st, _ast.Assign):
+            acceptable = len(st.targets) == 1 and isinstance(st.targets[0], _ast.Name)
+        else:
+            acceptable = isinstance(st, _ast.AnnAssign) and st.value is not None
+        out = ctx.call(R.inline, None, names)
+        if acceptable:
+            ctx.check(out.exc is None, 'a plain single-target assignment is accepted')
+        else:
+            ctx.check(out.raised(RefactoringError), 'anything else is refused with RefactoringError: inlining would drop a store or is meaningless')
+
+
+OBLIGATIONS = [C06a, C06b, C06d, C06f, C06g, C06h, C06i]
